@@ -526,6 +526,35 @@ fn cli_files(rep: &Report, n: usize, seed: u64) {
     });
 }
 
+/// valid programs walked completely: generated programs with loops, procedures, prints and breakpoints whose FIRST
+/// physical line already holds executable statements, run free and single-stepped to the end (every prompt answered
+/// with n): the driver looks up source lines forwards and backwards over the whole file, first line included
+fn cli_walk(rep: &Report, n: usize, seed: u64) {
+    par_for(n, 1, |i| {
+        let core = i < 40;
+        let mut rng = if core { Rng::new(0xC15B).fork(i as u64) } else { Rng::new(seed).fork(0xC15B_0000 + i as u64) };
+        let p = structured_program(&mut rng, &SOpts { prints: true, int3: i % 2 == 0, macros: false, max_blocks: 2 + i % 5, ..Default::default() });
+        let text = p.render(&mut Spell::random(rng.fork(1)), &Layout { trailing_newline: rng.chance(1, 2), filler_pct: 0, pack_pct: if i % 3 == 0 { 30 } else { 0 }, comments: false }).text;
+        // join the first lines into one
+        let join = 1 + rng.below(3);
+        let mut out = String::new();
+        let mut joined = 0;
+        for (k, l) in text.trim_start().split_inclusive('\n').enumerate() {
+            if k < join + 1 && joined < join && l.ends_with('\n') {
+                out.push_str(l.trim_end_matches(|c| c == '\n' || c == '\r'));
+                out.push(' ');
+                joined += 1;
+            } else {
+                out.push_str(l);
+            }
+        }
+        let interp = i % 4 != 3;
+        let stdin = b"n\n".repeat(6000);
+        let res = run_cli(out.as_bytes(), &CliOpts { interpreted: interp, stdin: &stdin, env: vec![("VERIF_NOMEM", "1")], timeout_s: 40.0, cap: 16 << 20, ..Default::default() });
+        judge_cli(rep, &res, "source-file", "valid-program-walked", out.as_bytes(), b"n (repeated)", interp, if core { Some(format!("w{}", i)) } else { None });
+    });
+}
+
 fn prompt_line(rng: &mut Rng) -> Vec<u8> {
     match rng.below(12) {
         0 => token_soup(rng).replace('\n', " ").into_bytes(),
@@ -700,6 +729,7 @@ pub fn run(rep: &Report) {
     spawn_workers(rep, rep.seed, if t { 1_500_000 } else { 16_000 }, false);
     cli_files(rep, if t { 60_000 } else { 1500 }, rep.seed);
     cli_prompt(rep, if t { 20_000 } else { 500 }, rep.seed);
+    cli_walk(rep, if t { 20_000 } else { 300 }, rep.seed);
     size_families(rep, t);
     for id in [0usize, 7, 11, 13, 24, 104] {
         let (target, family, text) = gen_case(rep.seed, id);
